@@ -8,6 +8,7 @@ import Gribi.Drv.RibDrv
 import Gribi.Model.Server
 import Gribi.Drv.ChkDrv
 import Gribi.Drv.FluentDrv
+import Gribi.Drv.ClientDrv
 namespace Gribi.Drv
 open Gribi
 
@@ -42,6 +43,7 @@ structure SrvSt where
   tmpMaster : Option Nat := none
   flushedNIs : Option (List NI) := none
   fl : FlSt := {}
+  cl : Cl.State := {}
   deriving Inhabited
 
 def codeNum : Code → Nat
@@ -510,6 +512,9 @@ def srvLine (st : SrvSt) (ts : List Tok) : SrvSt :=
       let st := bump st
       (st.monfail "c10" "the server did not answer within the watchdog (hang)").diff "hang" "the implementation hung"
     else if c.startsWith "chk." then { st with rs := chkLine st.rs ts }
+    else if c.startsWith "cl." || c = "obs.cl" then
+      let (rs, cl) := clientLine st.rs st.cl ts
+      { st with rs := rs, cl := cl }
     else if c.startsWith "fl." then
       let (rs, fl) := fluentLine st.rs st.fl ts
       { st with rs := rs, fl := fl }
